@@ -3,6 +3,15 @@ from ._intrinsic import _intrinsic
 from ._primitive_type import _PrimitiveType
 
 
+def _truncdiv(lhs: int, rhs: int) -> int:
+    """
+    integer division rounding towards zero (the VHDL '/' operator),
+    exact for arbitrarily large operands (a float division is not)
+    """
+    quot = abs(lhs) // abs(rhs)
+    return quot if (lhs < 0) == (rhs < 0) else -quot
+
+
 class Integer(_PrimitiveType):
     @staticmethod
     def decay(value: int | Integer) -> int:
@@ -186,7 +195,7 @@ class Integer(_PrimitiveType):
 
             if rhs == 0:
                 return Integer()
-            return Integer(int(lhs / rhs))
+            return Integer(_truncdiv(lhs, rhs))
         else:
             return NotImplemented
 
@@ -213,7 +222,7 @@ class Integer(_PrimitiveType):
             if rhs == 0:
                 return Integer()
 
-            return Integer(lhs - rhs * int(lhs / rhs))
+            return Integer(lhs - rhs * _truncdiv(lhs, rhs))
         else:
             return NotImplemented
 
